@@ -141,3 +141,72 @@ INVALID_SETTINGS = [
     "$md5,rounds=0$abc", "$md5$rounds=01$abc", "$md5$rounds=4294967296$abc", "$md5$rounds=5", "$md5$abc!d",
     "$md5xabc", "$md5$abc-d", "$3", "$4$abc", "$8$", "$x$", "-a", "a-", "\xc3\xa9x", "~~",
 ]
+
+
+def ynum(v, minv):
+    """yescrypt's variable-length numeral for small values (one character for v - minv <= 47, else two)"""
+    v -= minv
+    if v <= 47:
+        return B64[v]
+    v -= 48
+    return B64[48 + (v >> 6)] + B64[v & 63]
+
+
+def yescrypt_params(nlog2, r, p=1, t=0, tag="$y$", flavor="j"):
+    s = tag + flavor + ynum(nlog2, 1) + ynum(r, 1)
+    have = (1 if p != 1 else 0) | (2 if t else 0)
+    if have:
+        s += ynum(have, 1)
+        if have & 1:
+            s += ynum(p, 2)
+        if have & 2:
+            s += ynum(t, 1)
+    return s + "$"
+
+
+def yescrypt_param_sweep(rng, full=False):
+    """settings over N, r, p, t with tiny memory cost (the loop-count arithmetic of smix depends on all four)"""
+    out = []
+    for nl in (range(4, 11) if full else (4, 6, 8, 10)):
+        for r in ((1, 2, 8) if full else (1, 8)):
+            for p in ((1, 2, 3, 4, 6) if full else (1, 2, 4)):
+                for tt in (0, 1, 2, 3):
+                    for tag in (("$y$", "$gy$") if (nl + r + p + tt) % 3 == 0 or full else ("$y$",)):
+                        out.append(yescrypt_params(nl, r, p, tt, tag) + ysalt(rng, rng.choice((4, 8))))
+    for nl in (4, 6, 8):
+        for p in (1, 2, 4):
+            out.append("$7$" + B64[nl] + "/...." + B64[p] + "...." + salt(rng, 6))       # scrypt N, r=1, p
+    return out
+
+
+def yescrypt_malformed_params(rng, full=False):
+    """every character in the optional-parameter positions after '$y$j65' (have, p, t, g, NROM fields), cheap N"""
+    out = []
+    ys = list(B64) if full else [c for i, c in enumerate(B64) if i < 20 or i % 5 == 0]
+    for tag in ("$y$", "$gy$"):
+        for x in B64:
+            out += [tag + "j65" + x, tag + "j65" + x + "$" + "abcd", tag + "j65" + x + "$"]
+            for y in ys:
+                out.append(tag + "j65" + x + y + "$abcd")
+                out.append(tag + "j65" + x + y)
+            for _ in range(6 if full else 2):
+                out.append(tag + "j65" + x + salt(rng, rng.choice((2, 3, 4))) + "$abcd")
+    return out
+
+
+def bcrypt_sign_family(rng):
+    """keys that exercise the $2x$ sign-extension emulation and the $2a$ collision counter-measure:
+    8-bit bytes at every position of the 4-byte key groups, with and without a preceding 0xff"""
+    out = []
+    for n in (2, 3, 4, 5, 7, 8, 9, 12):
+        for pos in range(min(n, 8)):
+            for hi in (0x80, 0xa3, 0xff):
+                k = bytearray(rand_phrase(rng, n, eightbit=False))
+                k[pos] = hi
+                out.append(bytes(k))
+                if pos:
+                    k2 = bytearray(k)
+                    k2[pos - 1] = 0xff
+                    out.append(bytes(k2))
+    out += [b"\xff\xa3a", b"\xff\xa3abcde", b"\xa3", b"\xff\xff\xa3", b"\xff\xa334\xff\xff\xff\xa3345", b"1\xa3345", b"\xff\xa3345"]
+    return out
